@@ -259,6 +259,82 @@ def backward_slice(ctx, fi, expr, depth=2, frames=None, _seen=None):
                         work.append(val)
                 elif isinstance(n, ast.AugAssign) and isinstance(n.target, ast.Name) and n.target.id == nm:
                     work.append(n.value)
+                elif isinstance(n, ast.For) and depth > 0 and nm in names_in(n.target):
+                    out += _through_generator(ctx, fi, n, nm, e, depth, frames, _seen)
+    return out
+
+
+def ctor_fields(ci):
+    """{parameter position (without self): (field, parameter)} for `self.f = parameter` in __init__"""
+    init = ci.methods.get("__init__") if ci else None
+    out = {}
+    if init:
+        for n in walk_body(init.node):
+            if isinstance(n, ast.Assign) and isinstance(n.value, ast.Name) and n.value.id in init.params[1:]:
+                for t in n.targets:
+                    if isinstance(t, ast.Attribute) and dotted(t.value) == "self":
+                        out[init.params.index(n.value.id) - 1] = (t.attr, n.value.id)
+    return out
+
+
+def _through_generator(ctx, fi, loop, nm, e, depth, frames, _seen):
+    """`for .. nm .. in gen(args)`: the values nm (or the fields of nm that e reads) receives are what the package generator
+    yields: tuples element-wise, records (constructor calls storing their parameters) field-wise"""
+    prog = ctx.prog
+
+    def path_to(t):
+        if isinstance(t, ast.Name):
+            return [] if t.id == nm else None
+        if isinstance(t, (ast.Tuple, ast.List)):
+            for k, x in enumerate(t.elts):
+                p_ = path_to(x)
+                if p_ is not None:
+                    return [k] + p_
+        return None
+    path = path_to(loop.target)
+    if path is None:
+        return []
+    it = loop.iter
+    for _ in range(4):
+        if isinstance(it, ast.Name):
+            defs = [n for n in walk_body(fi.node) if isinstance(n, ast.Assign) and any(isinstance(t, ast.Name) and t.id == it.id for t in n.targets)]
+            if len(defs) != 1:
+                return []
+            it = defs[0].value
+        elif isinstance(it, ast.Call) and call_name(it) == "enumerate" and it.args:
+            if not path or path[0] != 1:
+                return []
+            it, path = it.args[0], path[1:]
+        else:
+            break
+    if not isinstance(it, ast.Call):
+        return []
+    fields = {x.attr for x in ast.walk(e) if isinstance(x, ast.Attribute) and isinstance(x.value, ast.Name) and x.value.id == nm}
+    bare = any(isinstance(x, ast.Name) and x.id == nm for x in ast.walk(e)) and not fields
+    out = []
+    for q in call_targets(ctx, fi, it):
+        g = prog.functions.get(q)
+        if g is None or not g.is_generator:
+            continue
+        ps = [p for p in g.params if not (g.cls is not None and not g.is_static and p in ("self", "cls"))]
+        binding = dict(zip(ps, it.args))
+        binding.update({k.arg: k.value for k in it.keywords if k.arg})
+        for y in [x for x in walk_body(g.node) if isinstance(x, ast.Yield) and x.value is not None]:
+            v = y.value
+            for k in path:
+                if isinstance(v, (ast.Tuple, ast.List)) and k < len(v.elts):
+                    v = v.elts[k]
+                else:
+                    break
+            sel = [v]
+            if fields and not bare and isinstance(v, ast.Call):
+                ci = prog.resolve_class(g.module, v.func)
+                cf = ctor_fields(ci) if ci is not None else {}
+                if cf:
+                    sel = [a for pos, a in enumerate(v.args) if pos in cf and cf[pos][0] in fields]
+                    sel += [k.value for k in v.keywords for pos, (fld, pn) in cf.items() if k.arg == pn and fld in fields]
+            for x in sel:
+                out += backward_slice(ctx, g, x, depth - 1, frames + ((g, binding),), _seen)
     return out
 
 
